@@ -249,6 +249,15 @@ def matchesFence (s : State) (f : Fence) : Bool :=
    | none => false
    | some i => i.op == f.op)
 
+/-- `ApplyAppendStored`, success path up to (not including) completeAppendWaiters -/
+def storedPre (s : State) (inf : Inflight) (base last : Nat) : State :=
+  let recs := List.range' base inf.recs.length       -- assignStoredOffsets
+  let p := assignLoop recs inf.ops inf.counts 0 s.pending
+  let s1 : State := { s with pending := p, leo := max s.leo last }
+  let s2 : State :=
+    if s1.role == 2 then advanceHW { s1 with progress := setP s1.progress s1.localNode s1.leo } else s1
+  { s2 with inflight := none }
+
 /-- `ApplyAppendStored` -/
 def applyAppendStored (s : State) (f : Fence) (base last : Nat) (err : Err) : State × Decision :=
   if !matchesFence s f then (s, {}) else
@@ -256,14 +265,16 @@ def applyAppendStored (s : State) (f : Fence) (base last : Nat) (err : Err) : St
   match s.inflight with
   | none => (s, {})     -- not reachable: matchesFence implies an in-flight batch
   | some inf =>
-    let recs := List.range' base inf.recs.length       -- assignStoredOffsets
-    let p := assignLoop recs inf.ops inf.counts 0 s.pending
-    let s1 : State := { s with pending := p, leo := max s.leo last }
-    let s2 : State :=
-      if s1.role == 2 then advanceHW { s1 with progress := setP s1.progress s1.localNode s1.leo } else s1
-    let s3 : State := { s2 with inflight := none }
-    let r := completeAppendWaiters s3 inf.ops
+    let r := completeAppendWaiters (storedPre s inf base last) inf.ops
     (r.1, { r.2 with signals := r.2.signals + 1 })
+
+/-- `ApplyQuorumCommitted`, success path up to completeAppendWaiters -/
+def quorumPre (s : State) (inf : Inflight) (first last hw : Nat) : State :=
+  let recs := List.range' first inf.recs.length
+  let p := assignLoop recs inf.ops inf.counts 0 s.pending
+  { s with pending := p, leo := max s.leo last, hw := max s.hw hw,
+           progress := setP s.progress s.localNode (max (getP s.progress s.localNode) last),
+           inflight := none }
 
 /-- `ApplyQuorumCommitted` -/
 def applyQuorumCommitted (s : State) (f : Fence) (first last hw : Nat) (err : Err) : State × Decision :=
@@ -276,20 +287,16 @@ def applyQuorumCommitted (s : State) (f : Fence) (first last hw : Nat) (err : Er
     if first == 0 || count == 0 || last < first || last - first + 1 != count || hw != last then
       failInflight s .conflict
     else
-      let recs := List.range' first count
-      let p := assignLoop recs inf.ops inf.counts 0 s.pending
-      let leo := max s.leo last
-      let s1 : State := { s with pending := p, leo := leo, hw := max s.hw hw,
-                                 progress := setP s.progress s.localNode (max (getP s.progress s.localNode) last),
-                                 inflight := none }
-      completeAppendWaiters s1 inf.ops
+      completeAppendWaiters (quorumPre s inf first last hw) inf.ops
+
+/-- `ApplyFollowerAck` up to completeAppendWaiters -/
+def ackPre (s : State) (follower mtch : Nat) : State :=
+  advanceHW (if mtch > getP s.progress follower then { s with progress := setP s.progress follower mtch } else s)
 
 /-- `ApplyFollowerAck` -/
 def applyFollowerAck (s : State) (follower mtch : Nat) : State × Decision :=
   if s.role != 2 || !s.replicas.contains follower then (s, {}) else
-  let s1 : State := if mtch > getP s.progress follower then { s with progress := setP s.progress follower mtch } else s
-  let s2 := advanceHW s1
-  completeAppendWaiters s2 s2.order
+  completeAppendWaiters (ackPre s follower mtch) (ackPre s follower mtch).order
 
 /-- `CancelAppendWaiter` -/
 def cancelAppendWaiter (s : State) (op : Nat) : State × Decision :=
@@ -354,18 +361,23 @@ def shouldClear (s : State) (m : Meta) : Bool :=
   let nextRole := if m.leader == s.localNode then 2 else 1
   s.epoch != m.epoch || s.lepoch != m.lepoch || s.leader != m.leader || s.role != nextRole || s.status != m.status
 
+/-- `ApplyMeta` after validation and the optional clearAppendState -/
+def metaInstall (s0 : State) (m : Meta) : State × Decision :=
+  let s1 : State := { s0 with id := m.id, epoch := m.epoch, lepoch := m.lepoch, leader := m.leader,
+                              replicas := m.replicas, isr := m.isr, minISR := m.minISR, status := m.status }
+  if m.status == 4 then ({ s1 with commitReady := false }, {}) else
+  let s2 : State :=
+    if m.leader == s1.localNode then { s1 with role := 2, progress := setP s1.progress s1.localNode s1.leo }
+    else { s1 with role := 1 }
+  ({ s2 with commitReady := (m.status == 2 || m.status == 1) }, {})
+
+/-- `clearAppendState` -/
+def clearAppendState (s : State) : State := { s with inflight := none, pending := [], order := [] }
+
 /-- `ApplyMeta` -/
 def applyMeta (s : State) (m : Meta) : State × Decision :=
   match validateMeta s m with
-  | .ok =>
-    let s0 : State := if shouldClear s m then { s with inflight := none, pending := [], order := [] } else s
-    let s1 : State := { s0 with id := m.id, epoch := m.epoch, lepoch := m.lepoch, leader := m.leader,
-                                replicas := m.replicas, isr := m.isr, minISR := m.minISR, status := m.status }
-    if m.status == 4 then ({ s1 with commitReady := false }, {}) else
-    let s2 : State :=
-      if m.leader == s1.localNode then { s1 with role := 2, progress := setP s1.progress s1.localNode s1.leo }
-      else { s1 with role := 1 }
-    ({ s2 with commitReady := (m.status == 2 || m.status == 1) }, {})
+  | .ok => metaInstall (if shouldClear s m then clearAppendState s else s) m
   | e => (s, { err := e })
 
 -- ----------------------------------------- reactor/leader_replication.go guards
